@@ -68,6 +68,9 @@ type frame struct {
 	bindVals map[string]sval
 	callSeqN map[string]int
 	kcell    ssa.Value
+	pubPoints map[ssa.Instruction][]*ssa.Alloc
+	marked    map[string]bool
+	pubN      int
 	dynCalls int
 	atCallN  int
 	localParams map[ssa.Value]bool
@@ -500,6 +503,9 @@ func (fr *frame) encodeBody(st *State, g string) {
 func (fr *frame) encodeBlock(b *ssa.BasicBlock, st *State, g string) {
 	fr.curBlock = b
 	for _, in := range b.Instrs {
+		if as := fr.publicationPoints()[in]; len(as) > 0 {
+			fr.publish(as, st, g)
+		}
 		switch x := in.(type) {
 		case *ssa.Phi:
 			continue
@@ -603,6 +609,7 @@ func (fr *frame) encodeInstr(in ssa.Instruction, st *State, g string) {
 		fr.hazard("nil", g, "(not (= "+base+" 0))", x.Pos(), "field address of nil pointer")
 		stT := x.X.Type().Underlying().(*types.Pointer).Elem()
 		fr.set(x, vc.fieldAddr(stT, x.Field, base))
+		fr.markDefined(stT, base, x.X.Type(), st)
 	case *ssa.Field:
 		stT := x.X.Type()
 		u := stT.Underlying().(*types.Struct)
@@ -942,6 +949,7 @@ func (fr *frame) unop(x *ssa.UnOp, st *State, g string) {
 		fr.nilCheckAddr(x.X, a, g, x.Pos())
 		v := vc.load(st, a, x.Type())
 		fr.set(x, v)
+		fr.markDefined(x.Type(), a, x.X.Type(), st)
 		fr.assumeTypeFacts(g, st, x.Type(), fr.vals[x])
 	case token.ARROW:
 		fr.chanEvent("recv", x.X, st, g, x.Pos())
@@ -1652,6 +1660,134 @@ func (fr *frame) collectLocalNames() {
 					add("#"+x.Comment, x)
 				}
 			}
+		}
+	}
+}
+
+// ---------------------------------------------------------------- publication of fresh objects of a `defined-by` type
+// `//@ type T immutable defined-by U`: the abstract view of a T object (abstract functions over its address) is
+// *defined* by U(obj, k) for all k at the moment a freshly allocated object first leaves the activation's hands (is
+// passed to a call, stored as a value, returned, boxed). Before that moment nothing has been said about the object's
+// view (the entry axiom speaks about objects that existed at entry), afterwards the object is immutable (structural
+// obligation), so the definition is given exactly once. The assumption is listed.
+
+func (fr *frame) publicationPoints() map[ssa.Instruction][]*ssa.Alloc {
+	if fr.pubPoints != nil {
+		return fr.pubPoints
+	}
+	fr.pubPoints = map[ssa.Instruction][]*ssa.Alloc{}
+	if len(fr.vc.P.TypeDef) == 0 {
+		return fr.pubPoints
+	}
+	for _, b := range fr.fn.Blocks {
+		for _, in := range b.Instrs {
+			a, ok := in.(*ssa.Alloc)
+			if !ok {
+				continue
+			}
+			nm, ok := a.Type().Underlying().(*types.Pointer).Elem().(*types.Named)
+			if !ok || fr.vc.P.TypeDef[nm.Obj().Name()] == "" || a.Referrers() == nil {
+				continue
+			}
+			var esc []ssa.Instruction
+			for _, r := range *a.Referrers() {
+				if isEscape(r, a) {
+					esc = append(esc, r)
+				}
+			}
+			for _, e := range esc {
+				first := true
+				for _, o := range esc {
+					if o != e && instrDominates(o, e) {
+						first = false
+					}
+				}
+				if first {
+					fr.pubPoints[e] = append(fr.pubPoints[e], a)
+				}
+			}
+		}
+	}
+	return fr.pubPoints
+}
+
+func isEscape(r ssa.Instruction, a *ssa.Alloc) bool {
+	switch x := r.(type) {
+	case *ssa.Store:
+		return x.Val == ssa.Value(a)
+	case *ssa.FieldAddr, *ssa.DebugRef:
+		return false
+	case *ssa.UnOp:
+		return false // a load of the object
+	}
+	return true // call argument, return, phi, boxing, closure binding, ...
+}
+
+func instrDominates(a, b ssa.Instruction) bool {
+	if a.Block() == b.Block() {
+		for _, in := range a.Block().Instrs {
+			if in == a {
+				return true
+			}
+			if in == b {
+				return false
+			}
+		}
+	}
+	return a.Block().Dominates(b.Block())
+}
+
+func (fr *frame) publish(as []*ssa.Alloc, st *State, g string) {
+	vc := fr.vc
+	for _, a := range as {
+		nm := a.Type().Underlying().(*types.Pointer).Elem().(*types.Named)
+		u := vc.P.TypeDef[nm.Obj().Name()]
+		body := u + "(pub$, q$)"
+		if f := strings.Fields(u); len(f) >= 3 && f[1] == "on" { // defined-by U on trig [mark]: instantiate on trig(obj, k)
+			u = f[0]
+			body = "triggered(" + f[2] + "(pub$, q$), " + u + "(pub$, q$))"
+		}
+		e, err := ParseExpr("forall q$ int :: " + body)
+		if err != nil {
+			vc.specErrors = append(vc.specErrors, "defined-by "+u+": "+err.Error())
+			continue
+		}
+		env := vc.newSpecEnv(fr.fn, st, st)
+		env.fr = fr
+		env.vars["pub$"] = sval{t: fr.val(a), typ: a.Type()}
+		vc.assume("(=> " + g + " " + env.trBool(e) + ")")
+		vc.note("DEFINITION: the abstract view of a fresh " + nm.Obj().Name() + " object is given by " + u + " when it is first published (immutable afterwards)")
+		// `... inv I`: what every published object satisfies (assumed of existing objects) is an obligation here
+		if f := strings.Fields(vc.P.TypeDef[nm.Obj().Name()]); len(f) == 6 && f[4] == "inv" {
+			if ie, err := ParseExpr("forall q$ int :: " + f[5] + "(pub$, q$)"); err == nil {
+				fr.pubN++
+				vc.oblige("publish-inv", fmt.Sprintf("%s#%d", f[5], fr.pubN), g, env.trBool(ie), "a "+nm.Obj().Name()+" object satisfies "+f[5]+" when it is published", fr.props, posOf(fr.fn, a.Pos()))
+			}
+		}
+	}
+}
+
+// markDefined: objects of a `defined-by U on f mark` type that the code dereferences are marked: the unfolding axioms
+// are instantiated for marked objects only (a bare trigger on f would unfold down the whole heap)
+func (fr *frame) markDefined(elem types.Type, base string, ptrT types.Type, st *State) {
+	vc := fr.vc
+	nm, ok := elem.(*types.Named)
+	if !ok {
+		return
+	}
+	f := strings.Fields(vc.P.TypeDef[nm.Obj().Name()])
+	if len(f) < 4 || fr.marked[base] || !vc.useAxiom["view:"+nm.Obj().Name()] {
+		return
+	}
+	if fr.marked == nil {
+		fr.marked = map[string]bool{}
+	}
+	fr.marked[base] = true
+	if e, err := ParseExpr(f[3] + "(pub$)"); err == nil {
+		env := vc.newSpecEnv(fr.fn, st, st)
+		env.vars["pub$"] = sval{t: base, typ: ptrT}
+		if t, ok := env.tryBool(e); ok {
+			vc.assume(t)
 		}
 	}
 }
